@@ -155,6 +155,64 @@ package badger
 //@   ensures[same-version-replaced] result == nil && !(old(string(e.Key) in txn.pendingWrites) && old(txn.pendingWrites[string(e.Key)].version) != e.version) ==> txn.duplicateWrites == old(txn.duplicateWrites)
 //@   assigns txn.count, txn.size, e.valThreshold, txn.duplicateWrites, txn.duplicateWrites[len(txn.duplicateWrites):cap(txn.duplicateWrites)], mapof(txn.pendingWrites), mapof(txn.conflictKeys), held(txn.db.bannedNamespaces.RWMutex)
 
+// ---- the transaction's own pending writes as an iterator (C04) ----
+
+//@ func (*pendingWritesIterator).Valid
+//@   props C04
+//@   requires pi != nil
+//@   ensures result <==> pi.nextIdx < len(pi.entries)
+//@   assigns nothing
+
+//@ func (*pendingWritesIterator).Next
+//@   props C04
+//@   requires pi != nil
+//@   ensures pi.nextIdx == old(pi.nextIdx) + 1
+//@   assigns pi.nextIdx
+
+//@ func (*pendingWritesIterator).Rewind
+//@   props C04
+//@   requires pi != nil
+//@   ensures pi.nextIdx == 0
+//@   assigns pi.nextIdx
+
+// The pending entry is shown with its value, meta, user meta and expiry as written, at the
+// transaction's read timestamp, under its own key.
+//@ func (*pendingWritesIterator).Value
+//@   props C04 C06
+//@   requires pi != nil && 0 <= pi.nextIdx && pi.nextIdx < len(pi.entries) && pi.entries[pi.nextIdx] != nil
+//@   ensures[as-written] result.Value == pi.entries[pi.nextIdx].Value && result.Meta == pi.entries[pi.nextIdx].meta && result.UserMeta == pi.entries[pi.nextIdx].UserMeta && result.ExpiresAt == pi.entries[pi.nextIdx].ExpiresAt
+//@   ensures[at-read-ts] result.Version == pi.readTs
+//@   assigns nothing
+
+//@ func (*pendingWritesIterator).Key
+//@   props C04
+//@   requires pi != nil && 0 <= pi.nextIdx && pi.nextIdx < len(pi.entries) && pi.entries[pi.nextIdx] != nil
+//@   ensures[own-key] len(result) == len(pi.entries[pi.nextIdx].Key) + 8 && ver(result) == pi.readTs && bytes(uk(result)) == bytes(pi.entries[pi.nextIdx].Key)
+//@   assigns nothing
+
+// Seek compares user keys: the target loses its version suffix, and the search predicate is
+// "at or after the target" (forward) or "at or before it" (reverse).
+//@ func (*pendingWritesIterator).Seek
+//@   props C04
+//@   light
+//@   assert[over-all-entries] before call Search : arg0 == len(pi.entries)
+//@   assert[position-adopted] before return : pi.nextIdx == ret(Search#1)
+
+//@ func (*pendingWritesIterator).Seek.$1
+//@   props C04
+//@   requires pi != nil && 0 <= idx && idx < len(pi.entries) && pi.entries[idx] != nil
+//@   ensures[forward] !pi.reversed ==> (result <==> lexcmp(pi.entries[idx].Key, key) >= 0)
+//@   ensures[reverse] pi.reversed ==> (result <==> lexcmp(pi.entries[idx].Key, key) <= 0)
+//@   assigns nothing
+
+// The iterator is built from exactly the pending entries, at the transaction's read timestamp,
+// in the requested direction; a read-only transaction or one without writes has none.
+//@ func (*Txn).newPendingWritesIterator
+//@   props C04
+//@   light
+//@   assert[settings] before return#2 : result != nil && result.readTs == txn.readTs && result.reversed == reversed
+//@   assert[none-when-readonly] before return#1 : result == nil && (!txn.update || len(txn.pendingWrites) == 0)
+
 // ---- timestamp oracle (C02, C03, C34, C36) ----
 
 //@ func (*oracle).readTs
